@@ -212,23 +212,32 @@ def check(run):
     rb = repo.func(K.PY_S, 'random_bit_state_gs_ps')
     rngsites.check_function(run, rb)
     kinds.check_function(run, repo, rb)
-    forms = set()
-    for st, ctx in walk(rb.node):
-        if isinstance(st, ast.Assign) and isinstance(st.targets[0], ast.Subscript) and isinstance(st.targets[0].slice, ast.Tuple) and ctx.loops:
-            if not (isinstance(ctx.loops[-1], ast.For) and isinstance(ctx.loops[-1].target, ast.Name)):
-                run.undecided('R13.bits', rb, st, 'the bit layout is not written as an index loop over the qubits')
-                continue
-            i = ctx.loops[-1].target.id
-            r, c = st.targets[0].slice.elts
-            fr = [affine_in(r, i, {'N': n}) for n in (3, 5)]
-            fc = affine_in(c, i, {'N': 3})
-            if None in fr or fc is None:
-                run.undecided('R13.bits', rb, st, 'index not affine')
-                continue
-            kN = (fr[1][1] - fr[0][1]) // 2
-            forms.add(((fr[0][0], kN, fr[0][1] - 3 * kN), fc))
-    run.check(forms == {((1, 0, 0), (2, 1)), ((1, 1, 0), (2, 0))}, 'R13.bits', rb, 'gs[i,2i+1] = gs[N+i,2i] = 1',
-              'a computational basis state has stabilizers Z_i (row i, slot 2i+1) and destabilizers X_i (row N+i, slot 2i): found %s' % sorted(forms))
+    # the kernel is executed by the checker's interpreter for N = 3: which (row, slot) entries of the tableau are set to 1
+    from .. import mini
+    ones = set()
+
+    def _call(nd, env, rec):
+        last = norm(nd.func).split('.')[-1]
+        if last in ('zeros', 'empty', 'eye', 'choice', 'randint', 'array', 'astype'):
+            return 'ARR'
+        raise Undecidable('call ' + norm(nd.func))
+
+    def _attr(nd, env, rec):
+        return 'LIB'
+
+    def _on_store(t, v, env, value):
+        if isinstance(t, ast.Subscript) and isinstance(t.slice, ast.Tuple) and len(t.slice.elts) == 2:
+            if v is Undecidable:
+                raise Undecidable('stored value')
+            ones.add((value(t.slice.elts[0]), value(t.slice.elts[1]), v))
+    try:
+        mini.execute(rb.node, {rb.posparams[0]: 3}, call=_call, attr=_attr, on_store=_on_store)
+        want = {(i, 2 * i + 1, 1) for i in range(3)} | {(3 + i, 2 * i, 1) for i in range(3)}
+        run.check(ones == want, 'R13.bits', rb, 'gs[i,2i+1] = gs[N+i,2i] = 1',
+                  'a computational basis state has stabilizers Z_i (row i, slot 2i+1) and destabilizers X_i (row N+i, slot 2i): for N = 3 the '
+                  'entries set are %s' % sorted(ones))
+    except Undecidable as e:
+        run.undecided('R13.bits', rb, 'random_bit_state_gs_ps', 'kernel not interpretable: %s' % e)
     rbs = repo.func(K.PY_S, 'random_bit_state')
     bind.check_function_calls(run, repo, rbs, only={'StabilizerState'})
     bind.check_unpacks(run, repo, rbs)
